@@ -702,6 +702,15 @@ impl IdmServerProxyWriteTransaction<'_> {
             missing_scim.remove(&entry.get_uuid());
         });
 
+        // A sync agreement must never create entries in the protected system uuid range. The stubs
+        // are created with internal_create, where the base plugin accepts that range.
+        if missing_scim.keys().any(|u| *u < DYNAMIC_RANGE_MINIMUM_UUID) {
+            error!(
+                "Unable to proceed: a requested entry uuid is in the protected system uuid range."
+            );
+            return Err(OperationError::InvalidEntryState);
+        }
+
         // For entries that do not exist, create stub entries. We don't create the external ID here
         // yet, because we need to ensure that it's unique.
         let create_stubs: Vec<EntryInitNew> = missing_scim
